@@ -10,7 +10,7 @@ Inductive sigstate := Masked | HandlersSet | Running.           (* tracker start
 Record tracker := mkt { t_alive : bool; t_swept : bool; t_sig : sigstate; t_pending : bool;
                         t_registry : list nat }.                (* names currently counted *)
 (* a named semaphore: exists in the kernel namespace? who created it? *)
-Inductive semstage := Created | Registered | Guarded.          (* kernel object made / REGISTER sent / finalizer installed *)
+Inductive semstage := Created | Registered | Guarded | Unregistered.   (* kernel object made / REGISTER sent / finalizer installed / UNREGISTER sent *)
 Record sem := mks { s_exists : bool; s_owner : nat; s_stage : semstage; s_tracker : nat }.
 Record state := mk { procs : list proc; trackers : list tracker; sems : list sem }.
 
@@ -48,7 +48,8 @@ Inductive ev :=
 | TrackerEOF (t : nat)             (* tracker t reads EOF: sweep *)
 (* semaphores *)
 | SemCreate (p : nat) | SemRegister (i : nat) | SemGuard (i : nat)
-| SemCollect (i : nat).            (* the owning object is garbage collected: unlink, then UNREGISTER *)
+| SemCollect (i : nat)             (* the owning object is garbage collected: first step of the finalizer *)
+| SemForget (i : nat).             (* ... its second step; which of unlink / UNREGISTER comes first is read off the source *)
 
 
 Definition step (s : state) (e : ev) : option state :=
@@ -108,7 +109,7 @@ Definition step (s : state) (e : ev) : option state :=
           if t_alive x && Nat.eqb (writers s t) 0 then
             Some (mk (procs s) (upd (trackers s) t (fun x => mkt false true (t_sig x) (t_pending x) []))
                      (* everything still registered with t is unlinked *)
-                     (map (fun y => if Nat.eqb (s_tracker y) t && match s_stage y with Created => false | _ => true end
+                     (map (fun y => if Nat.eqb (s_tracker y) t && match s_stage y with Created | Unregistered => false | _ => true end
                                     then mks false (s_owner y) (s_stage y) (s_tracker y) else y) (sems s)))
           else None
       | None => None end
@@ -134,7 +135,23 @@ Definition step (s : state) (e : ev) : option state :=
       match nth_error (sems s) i with
       | Some (mks true o Guarded t) =>
           match nth_error (procs s) o with
-          | Some (mkp true _) => Some (mk (procs s) (trackers s) (upd (sems s) i (fun _ => mks false o Guarded t)))
+          | Some (mkp true _) =>
+              Some (mk (procs s) (trackers s)
+                       (upd (sems s) i (fun _ => if semlock_cleanup_unlinks_then_unregisters then mks false o Guarded t
+                                                 else mks true o Unregistered t)))
+          | _ => None end
+      | _ => None end
+  | SemForget i =>
+      match nth_error (sems s) i with
+      | Some (mks false o Guarded t) =>
+          match nth_error (procs s) o with
+          | Some (mkp true _) => if semlock_cleanup_unlinks_then_unregisters
+                                 then Some (mk (procs s) (trackers s) (upd (sems s) i (fun _ => mks false o Unregistered t))) else None
+          | _ => None end
+      | Some (mks true o Unregistered t) =>
+          match nth_error (procs s) o with
+          | Some (mkp true _) => if semlock_cleanup_unlinks_then_unregisters then None
+                                 else Some (mk (procs s) (trackers s) (upd (sems s) i (fun _ => mks false o Unregistered t)))
           | _ => None end
       | _ => None end
   end.
